@@ -123,11 +123,14 @@ impl Report {
         if self.samples.len() < 6 { self.samples.push(v) }
     }
     pub fn violation(&mut self, signature: impl Into<String>, what: impl Into<String>, replay: Value) {
-        // Keep at most 40 violations per shard, one per distinct signature+what prefix.
-        if self.violations.len() < 40 {
-            self.violations.push(Violation {
-                signature: signature.into(), what: what.into(), replay
-            });
+        // Keep at most 4 witnesses per signature (and 400 in total) per shard, but
+        // count every occurrence, so that a new cause is never crowded out by a
+        // frequent one.
+        let signature = signature.into();
+        *self.counters.entry(format!("violations_seen:{signature}")).or_insert(0) += 1;
+        let same = self.violations.iter().filter(|v| v.signature == signature).count();
+        if same < 4 && self.violations.len() < 400 {
+            self.violations.push(Violation { signature, what: what.into(), replay });
         }
         else {
             self.count("violations_dropped", 1);
@@ -382,7 +385,9 @@ pub fn conclude(check: &Check, tier: Tier, seed: u64, report: Report, wall: Dura
         });
         match hit {
             Some(f) => {
-                known.entry(f.signature.clone()).or_insert((f.what.clone(), 0)).1 += 1;
+                let seen = report.counters.get(&format!("violations_seen:{}", f.signature)).copied().unwrap_or(0);
+                let e = known.entry(f.signature.clone()).or_insert((f.what.clone(), 0));
+                e.1 = e.1.max(seen).max(1);
             }
             None => fresh.push(v),
         }
@@ -448,7 +453,7 @@ pub fn conclude(check: &Check, tier: Tier, seed: u64, report: Report, wall: Dura
     println!("{} {} seed={} evaluations={} distinct_nontrivial={} violations={} known={} inconclusive={} wall={:.1}s",
         check.id, tier.name(), seed, report.evaluations, distinct, fresh.len(),
         known.len(), report.inconclusive.len(), wall.as_secs_f64());
-    for (k, v) in &report.counters { println!("  counter {k} = {v}"); }
+    for (k, v) in &report.counters { if !k.starts_with("violations_seen:") { println!("  counter {k} = {v}"); } }
     if !fresh.is_empty() {
         return 1
     }
